@@ -387,6 +387,14 @@ func genFor(t *rapid.T, e *entry) parseCase {
 		}
 		c.Data, c.Src = d, "random"
 	}
+	if e.Framing == spec.RTU && mode <= 6 && len(c.Data) >= 4 && rapid.IntRange(0, 7).Draw(t, "glitch") == 0 {
+		// line noise in front of a frame that is CRC-consistent on its own (whatever its content): the whole input has a bad CRC
+		g := rapid.SampledFrom([][]byte{{0x00}, {0xFF}, {0x00, 0x00}, {0x7E}}).Draw(t, "glitch_bytes")
+		inner := append([]byte(nil), c.Data...)
+		fixCRC(e.Framing, inner)
+		c.Data = append(append([]byte(nil), g...), inner...)
+		c.Src += "+noise-in-front"
+	}
 	return c
 }
 
